@@ -61,7 +61,14 @@ RULE = ("(A) histories of 40-320 ops (LCD-window accesses) from a deterministic 
         "underneath both LCD windows; 1/6 of the Python machine histories present low-window addresses 0x2010-0x2FFF "
         "unfolded; every step (Python: every write group) compared model/Python/Rust; the write-only "
         "projection of every clean history is replayed from power-on through replay_operations() and a fresh "
-        "LCDPipeline().replay(). Non-trivial = on BOTH chips "
+        "LCDPipeline().replay(); bystander operations (round 5): 1/3 of the histories carry 1-4 (+ a `write; bystander; "
+        "poll; poll` sandwich per chip in half of them) operations on the live LCD that are NOT window accesses, half of "
+        "them placed directly behind a write -- public observers (get_snapshot/export_snapshot, get_display_buffer/"
+        "display_buffer, statistics accessors, PCE500Emulator.save_snapshot / CoreRuntime::save_snapshot of the whole "
+        "machine) and load_snapshot of a foreign snapshot with one generated defect (payload size 0..2100 != 1024 with "
+        "well-formed geometry, wrong pages/width, wrong chip_count, missing header field) that the implementation itself "
+        "refuses -- after which registers, VRAM and busy must still be those of the access history (a bystander is "
+        "non-trivial when a chip is BUSY / holds non-power-on state at that moment). Non-trivial = on BOTH chips "
         "the column counter wrapped 63->0 or a data read followed a set-Y; distinct = hash of the op list + path options. "
         "(B) complete enumeration of the 8192 VRAM bits per (model, base VRAM pattern, start lines) configuration, "
         "plus two multi-bit data writes per VRAM byte; non-trivial = the probe changed at least one pixel.")
@@ -105,6 +112,11 @@ ASSUMPTIONS = [
     "for a data write is asserted only when the chip's start line is a multiple of 8 (otherwise a byte legitimately "
     "straddles the upper/lower half, i.e. two display columns, and only '<= 8 pixels' is asserted)",
     "Rust display-write capture (display-mapped coordinates) is compared with display_buffer() only at start line 0",
+    "bystander operations: the statement makes the chips' state and every read value a function of the sequence of "
+    "window reads/writes, so an operation that is not such an access (observing through the public surface, saving a "
+    "machine snapshot, a snapshot restore that the implementation itself refuses with Err / an exception) must leave "
+    "registers, VRAM and busy untouched; whether a restore was refused is taken from the implementation's own answer; "
+    "a restore it accepts is C16's subject and ends the history unjudged (label bystander:restore-accepted)",
 ]
 
 
@@ -299,6 +311,36 @@ class PyLcd:
 
     def busy(self) -> List[bool]:
         return [bool(ch.state.busy) for ch in self.c.chips]
+
+    def bystander(self, op: Sequence[Any]) -> str:
+        """An operation on the live LCD that is not an access to the LCD windows (round 5).
+        ["S", what]: a public observer -- get_snapshot / get_display_buffer / statistics accessors / (where the
+        controller belongs to a PCE500Emulator) PCE500Emulator.save_snapshot to a temporary file.
+        ["L", meta, hex, defect]: HD61202Controller.load_snapshot of a foreign snapshot; the answer (an exception =
+        "rejected") is the implementation's own."""
+        import copy
+        import os
+        import tempfile
+
+        self.last_snapshot = None
+        if op[0] == "S":
+            what = op[1]
+            if what == "display":
+                self.c.get_display_buffer()
+            elif what == "stats":
+                self.c.get_chip_statistics()
+                _ = (self.c.display_on, self.c.page, self.c.column)
+            elif what == "save" and self.emu is not None:
+                with tempfile.TemporaryDirectory(prefix="vh-c15-") as d:
+                    self.emu.save_snapshot(os.path.join(d, "s.pcsnap"))
+            else:
+                self.c.get_snapshot()
+            return "done"
+        try:
+            self.c.load_snapshot(copy.deepcopy(op[1]), bytes.fromhex(op[2]))
+        except Exception:  # noqa: BLE001 -- a refusal; what it leaves behind is judged by the caller
+            return "rejected"
+        return "accepted"
 
     def display(self):
         return self.c.get_display_buffer()
@@ -582,6 +624,19 @@ def expand_writes(op: Sequence[Any]) -> List[Tuple[int, int]]:
     return [(op[1], v) for v in M.run_values(op[2], op[3], op[4])]
 
 
+BYSTANDER_KINDS = ("S", "L")
+BYSTANDER_SYMPTOM = "changed by an operation that is not an access to the LCD windows"
+
+
+def bystander_where(op: Sequence[Any], py: Optional["PyLcd"] = None) -> str:
+    if op[0] == "S":
+        what = op[1]
+        if what == "save":
+            return "observe: save_snapshot of the machine between accesses"
+        return f"observe: {what} between accesses"
+    return f"refused snapshot restore ({op[3] if len(op) > 3 else 'defect'}) between accesses"
+
+
 def _classify(op: Sequence[Any]) -> Tuple[str, bool]:
     """Semantic class of an op (fingerprint `where`) and whether its direction matches the address."""
     if op[0] == "w":
@@ -667,8 +722,61 @@ def judge_history(ops: List[List[Any]], rs_result: Dict[str, Any],
         prev_py = obs
         return False
 
+    n_by = n_by_nt = 0
     for i, op in enumerate(ops):
         kind = op[0]
+        if kind in BYSTANDER_KINDS:
+            # Round 5: not a window access -> the model does nothing; registers, VRAM, busy must stay what the
+            # access history made them (statement: state and read values are those of the protocol for the sequence
+            # of reads and writes).  A restore the implementation ACCEPTS is C16's subject: the history ends unjudged.
+            if py_flush(i - 1, ""):
+                break
+            where = bystander_where(op)
+            case = _make_case(ops[:i + 1], opts)
+            model_busy = [c.busy for c in model.chips]
+            live = (model.regs(), model.vram()) != (init[1], init[2])
+            n_by += 1
+            if (kind == "S" and any(model_busy)) or (kind == "L" and (live or any(model_busy))):
+                n_by_nt += 1
+                labels.add("bystander:" + ("observer inside a BUSY window" if kind == "S" else "refused restore over live state"))
+            labels.add("bystander:" + (f"observe-{op[1]}" if kind == "S" else f"restore-{op[3]}"))
+            try:
+                py_ans = py.bystander(op)
+                py_obs = py.observe(None)
+                py_busy = py.busy()
+            except Exception as exc:  # noqa: BLE001
+                viols.append(Violation(f"{py_tag}:exception", where, f"raises {type(exc).__name__}", case, repr(exc)[:200]))
+                break
+            if i >= len(rs_steps):
+                viols.append(Violation(f"{rs_tag}:panic", where, "rust panicked", case, str(rs_result.get("panic"))[:200]))
+                break
+            rs_ans = rs_steps[i].get("l")
+            rs_obs = _rs_obs(rs_steps[i], rs_vram)
+            if rs_ans == "save-failed":
+                labels.add("bystander:rust-save-failed")
+            if "accepted" in (py_ans, rs_ans):
+                labels.add("bystander:restore-accepted(history ends unjudged)")
+                break
+            if kind == "L":
+                labels.add("bystander:restore-refused-by-both")
+            exp = (None, model.regs(), model.vram())
+            stop = False
+            for impl, obs, prev, shape in ((py_tag, py_obs, prev_py, py.shape_problem), (rs_tag, rs_obs, prev_rs, None)):
+                fields, sym, det = _diff_expected(impl, exp, obs, prev, (), False, None, shape)
+                if fields:
+                    what = "registers and VRAM" if "vram" in fields and len(set(fields)) > 1 else \
+                        "VRAM" if "vram" in fields else "registers"
+                    viols.append(Violation(f"{impl}:bystander", where, f"chip {what} {BYSTANDER_SYMPTOM}", case,
+                                           f"step {i} {op[0]}: " + "; ".join(det)))
+                    stop = True
+            if not stop and py_busy != model_busy:
+                viols.append(Violation(f"{py_tag}:bystander", where, f"busy flag of a chip {BYSTANDER_SYMPTOM}", case,
+                                       f"step {i} {op[0]}: busy [left,right] expected {model_busy} got {py_busy}"))
+                stop = True
+            if stop:
+                break
+            prev_py, prev_rs = py_obs, rs_obs
+            continue
         addr = op[1]
         cs, di, rw = M.decode(addr)
         sel = M.selected(cs)
@@ -809,6 +917,11 @@ def judge_history(ops: List[List[Any]], rs_result: Dict[str, Any],
         if model.read_after_set[ci]:
             labels.add(f"read-after-set-y:{M.CHIP_NAME[ci]}")
     info["final_regs"] = [list(r) for r in model.regs()]
+    info["bystanders"] = [n_by, n_by_nt]
+    if n_by:
+        labels.add("bystander:history")
+    if n_by_nt:
+        labels.add("bystander:history-nontrivial")
     return viols, sorted(labels), nt, info
 
 
@@ -894,7 +1007,9 @@ def attribute_paths(viols: List[Violation], opts: Dict[str, Any]) -> List[Violat
             base = case_opts(v.case)
             side = tag.split("[", 1)[0]
             if side == "py":
-                if base["py_via"] in ("emulator", "cpu"):
+                if base["py_via"] == "cpu":
+                    base.update(py_via="emulator")  # the same machine without the CPU in front of the bus
+                elif base["py_via"] == "emulator":
                     base.update(py_via="bus")
                 else:
                     base.update(py_via="controller", group=1, observe_at=0)
@@ -957,6 +1072,10 @@ def history_plan(seed: int, shard: int, j: int) -> Tuple[List[List[Any]], str, D
         opts["backing"] = ["fill", sm.choice((0xFF, 0x5A, 0x80, 0x20, 0xA0, 0x01, 1 + sm.below(255), 1 + sm.below(255)))]
     else:
         opts["backing"] = ["hash", sm.below(1 << 30)]
+    # round 5: bystander operations (own stream; 1/3 of the histories, the forced-stretch history stays as it was)
+    sb = Stream(seed, 0xC15C, shard, j)
+    if j != 1 and sb.chance(1, 3):
+        ops = GEN.add_bystanders(sb, ops)
     return ops, profile, opts
 
 
@@ -983,8 +1102,11 @@ def _hist_shard(task: Tuple[int, int, int, str]) -> Report:
             sample = None
             if rep.evaluations < 1 and shard < 6:
                 sample = {"part": "history", "profile": profile, "n_ops": len(ops), "paths": _make_case([], opts),
-                          "ops_head": [[o[0], hex(o[1])] + o[2:] for o in ops[:10]],
+                          "ops_head": [[o[0], hex(o[1])] + o[2:] if isinstance(o[1], int) else [o[0], str(o[-1])] for o in ops[:10]],
                           "final_regs[on,start,page,y]": info.get("final_regs"), "nontrivial": nt}
+            by = info.get("bystanders", [0, 0])
+            rep.extra["bystander_ops_generated"] = rep.extra.get("bystander_ops_generated", 0) + by[0]
+            rep.extra["bystander_ops_nontrivial"] = rep.extra.get("bystander_ops_nontrivial", 0) + by[1]
             key = jhash([ops, _make_case([], opts)]) if nt else None
             rep.case(key, [f"profile:{profile}", "nt" if nt else "trivial"] + labels, sample)
     return rep
